@@ -16,7 +16,11 @@
 //!     and updates again. The cuts extend over the rsync part of the write (`--rsynccut 0` leaves
 //!     that part out); before commit e1f99c61 the cut between the second rename and the removal
 //!     of rsync/old left every later write failing (finding F11c, fixed).
-//! (c) `--f11b 1`: a worker with `rrdp_delta_files_max_nr = 0`.
+//! (c) Switches for findings (off by default, see lib/props.d/C11.py): `--f11a 1` applies the
+//!     property's unconditional "never more than max_nr deltas" to every update; `--f11b 1` runs a
+//!     worker with `rrdp_delta_files_max_nr = 0`; `--candidates 1` replays three scripted
+//!     scenarios (URIs differing in module-name case, a stale rsync/tmp-<serial> reused after a
+//!     session reset, an object URI that is a directory prefix of another).
 //!
 //! Abstraction (trusted): as in c10.rs for URIs / handles / contents; session ids, random path
 //! components and unknown names are interned; a hash is named by the parsed content of the file
@@ -386,7 +390,6 @@ fn coq_rrdp(s: &MR, it: &mut Interner) -> String {
     let ds: Vec<String> = s.deltas.iter().map(|d| format!("mkD {} {} {} {}", d.serial, coq_z(d.time), d.rnd, coq_list(&d.elems.iter().map(coq_elem).collect::<Vec<_>>()))).collect();
     format!("(mkR {} {} {} {})", coq_state(s, it), s.session, s.snaprnd, coq_list(&ds))
 }
-fn flat_objects(s: &MR) -> Vec<(AUri, u64, u64)> { let mut v: Vec<_> = s.snap.values().flatten().cloned().collect(); v.sort(); v }
 
 // ---------------------------------------------------------------- retention configurations
 
@@ -1028,7 +1031,7 @@ fn candidate_replays(args: &Args, tokio: &tokio::runtime::Runtime) -> Value {
     let mut it = Interner::new();
     let rc = RetCfg { min_nr: 5, min_secs: 1200, max_nr: 50, max_secs: 7200, archive: false };
     let mut res = serde_json::Map::new();
-    let mut pubd = |tag: &str, els: Vec<GElem>, srv: &Server, it: &mut Interner| -> String { match srv.publish("alice", &els, it) { Ok(()) => format!("{tag}: accepted"), Err(e) => format!("{tag}: {e}") } };
+    let pubd = |tag: &str, els: Vec<GElem>, srv: &Server, it: &mut Interner| -> String { match srv.publish("alice", &els, it) { Ok(()) => format!("{tag}: accepted"), Err(e) => format!("{tag}: {e}") } };
     // F11f: a write that failed after filling rsync/tmp-1 (here: an injected error at the first rename of a session
     // reset); later the serial comes back to 1 after another reset: what was left in tmp-1 ends up in rsync/current
     {
